@@ -9,7 +9,7 @@ N="$1"; [ -n "$N" ] || { echo "usage: $0 <name>"; exit 2; }
 D=/var/tmp/sb-$N
 rm -rf "$D"; mkdir -p "$D"
 git clone -q /repo "$D/repo"
-rsync -a --exclude .cache/target --exclude .git --exclude replays /verif/ "$D/verif/"
+rsync -a --exclude .cache/target --exclude .cache/target-gentl --exclude .cache/cases --exclude .git --exclude replays /verif/ "$D/verif/" || [ $? -eq 24 ]
 mkdir -p "$D/verif/replays"
 find "$D/verif/rust" -name Cargo.toml -exec sed -i "s#\"/repo/#\"$D/repo/#g; s#/verif/rust/#$D/verif/rust/#g" {} +
 rm -f "$D"/verif/rust/*/Cargo.lock
